@@ -73,6 +73,29 @@ func orDNF(ds ...dnf) dnf {
 }
 
 func c01f(c *Ctx) {
+	// closed world: every type that can sit in a chunk's branchBehavior — every type of package
+	// emitter with a renderBranchConditions method — is one of the renderers judged below (a new
+	// kind of branch would otherwise be rendered by a protocol nobody looked at)
+	{
+		judged := map[string]bool{}
+		for _, s := range protoSites {
+			judged[s.fn] = true
+		}
+		n := 0
+		for _, fn := range c.W.FuncsOf("emitter") {
+			if fn.Name() != "renderBranchConditions" || fn.Signature.Recv() == nil || isTestFunc(c.W, fn) {
+				continue
+			}
+			n++
+			named := namedOf(deref(fn.Signature.Recv().Type()))
+			if named == nil {
+				continue
+			}
+			anchor := "emitter." + named.Obj().Name() + ".renderBranchConditions"
+			c.Check(judged[anchor], "brancher-judged/"+named.Obj().Name(), c.W.FuncPos(fn), "this branch renderer is one of those whose protocol is checked", "type "+named.Obj().Name()+" renders a branch (it has a renderBranchConditions method) but is none of the renderers whose goto / fall-through / terminator protocol is checked: what it writes is unknown to every rule")
+		}
+		c.Check(n >= 4, "brancher-judged/census", "-", fmt.Sprintf("%d branch renderers", n), fmt.Sprintf("expected at least 4 renderBranchConditions methods, found %d", n))
+	}
 	for _, s := range protoSites {
 		fn := c.Fn(s.fn)
 		if fn == nil {
